@@ -29,7 +29,7 @@ void vf::c14_case(Ctx &c) {
   memset(st, 0, sizeof st); memset(ac, 0, sizeof ac);
   st[0].id = 0xC0000000u | tbase; st[0].type = 254; st[1].id = 0x80000000u | rbase; st[1].type = 254;
   int mode = 2; int accepted = 0, refused = 0; bool activated_after = false;
-  int synccnt = 0; bool rpend = false, sync_probed = false;   // SYNCs counted since the TPDO's activation; a synchronous RPDO frame may be buffered
+  int synccnt = 0; bool rpend = false, sync_probed = false, timing_written = false;   // SYNCs counted since the TPDO's activation; a synchronous RPDO frame may be buffered
   auto findobj = [&](uint32_t m) -> int { for (int i = 0; i < 6; i++) if ((m >> 8) == ((0x2100u << 8) | OB[i].sub)) return i; return -1; };
   auto verdict = [&](uint32_t code, bool refuse, uint32_t want, const char *what, uint32_t val) {
     if (refuse) { CHECK(c, code != 0, "precondition-enforced", "%s := %08X was accepted although the CiA 301 preconditions do not hold", what, val); if (want) CHECK(c, code == want, "abort-code", "%s := %08X refused with %08X, expected %08X", what, val, code, want); refused++; }
@@ -51,7 +51,7 @@ void vf::c14_case(Ctx &c) {
   while (!c.t.exhausted() && steps < (c.thorough ? 140 : 70)) {
     steps++; c.ops++;
     int k = (int)c.t.below(2); uint16_t com = (uint16_t)(k ? 0x1400 + rp : 0x1800 + tp), mp = (uint16_t)(k ? 0x1600 + rp : 0x1A00 + tp);
-    static const uint16_t W[8] = {22, 8, 22, 30, 8, 6, 6, 8};
+    static const uint16_t W[9] = {22, 8, 22, 30, 8, 6, 6, 8, 6};
     uint32_t op = c.t.weighted(W);
     s.clear_tx();
     if (op == 0) {        // COB-ID
@@ -105,6 +105,12 @@ void vf::c14_case(Ctx &c) {
         uint8_t ex[8]; int p = 0; for (int i = 0; i < ac[0].num; i++) { int o = findobj(ac[0].map[i]); memcpy(ex + p, ob[o]->store, OB[o].bytes); p += OB[o].bytes; }
         CHECK(c, s.tx[0].id == (ac[0].id & 0x7FFu) && s.tx[0].dlc == p && !memcmp(s.tx[0].d, ex, p), "takes-effect-as-stored", "TPDO frame %s does not match the activated configuration (id %03X, %d mapped bytes)", s.tx[0].str().c_str(), ac[0].id & 0x7FF, p);
       }
+    } else if (op == 8) { // event time (any value; no time passes in these histories) and inhibit time := 0 of the TPDO: the statement names no precondition for them,
+      // so either verdict is admitted - but they must not disturb what the following probes observe
+      bool ev = c.t.coin(); uint16_t v = ev ? (uint16_t[]){0, 10, 100, 1000}[c.t.below(4)] : 0;
+      uint32_t code = cl.write((uint16_t)(0x1800 + tp), ev ? 5 : 3, v, 2);
+      VLOG(c, "TPDO %s time := %u -> %08X", ev ? "event" : "inhibit", v, code);
+      if (code == 0) timing_written = true;
     } else if (op == 7) { // SYNC activation probe: a synchronous TPDO of type n answers every n-th SYNC since its activation, any other TPDO no SYNC
       if (mode != 3) continue;
       SplitMix r(c.t.u16()); for (int i = 0; i < 4; i++) { uint8_t b[4]; uint32_t v = (uint32_t)r.next(); memcpy(b, &v, 4); memcpy(ob[i]->store, b, ob[i]->width); }
@@ -139,7 +145,7 @@ void vf::c14_case(Ctx &c) {
     stored_equal();
   }
   if (accepted && refused && activated_after) c.nontrivial = true;
-  if (accepted && refused) c.cls("accepted-and-refused-writes"); if (activated_after) c.cls("activation-after-reconfiguration"); if (sync_probed) c.cls("sync-probe");
+  if (accepted && refused) c.cls("accepted-and-refused-writes"); if (activated_after) c.cls("activation-after-reconfiguration"); if (sync_probed) c.cls("sync-probe"); if (timing_written) c.cls("event-or-inhibit-time-written");
 }
 
 namespace {
@@ -147,7 +153,7 @@ namespace {
 Registrar reg(Prop{
     "C14",
     "Cases: node id 1..127, one TPDO and one RPDO on a generated channel number 0..3 (initially invalid, empty mapping, 4..8 mapping sub-indices present) and candidate objects {mappable RW 8/16/32 bit, mappable read-only, mappable write-only, not mappable}; histories of up to 70 (140) expedited SDO writes to 14xx/16xx/18xx/1Axx sub-indices with values from a covering domain "
-    "(valid/invalid bit, id change, EXT and RTR bits, types, counts 0..9, entries naming existing / absent index / absent sub-index / non-mappable / wrong-access objects with lengths 8..64 bit), interleaved with NMT start / pre-operational and activation probes (trigger the TPDO, send the RPDO frame, send a SYNC). "
+    "(valid/invalid bit, id change, EXT and RTR bits, types, counts 0..9, entries naming existing / absent index / absent sub-index / non-mappable / wrong-access objects with lengths 8..64 bit), interleaved with writes of the TPDO's event time and inhibit time (:= 0), NMT start / pre-operational and activation probes (trigger the TPDO, send the RPDO frame, send a SYNC). "
     "Oracle: rule model: accepted only under the CiA 301 preconditions of the statement, abort code 0604 0041h / 0604 0042h where the reason is named (otherwise any abort), every refused write leaves all stored values unchanged, clearly allowed writes are accepted, "
     "invariant at each activation (<= 8 mapped bytes, all targets exist), and the activated PDO behaves exactly as the stored configuration (frame identifier/DLC/content, RPDO effect via full snapshot, a synchronous TPDO of type n answers every n-th SYNC since its activation and an event-driven or invalid one none). "
     "Non-trivial: >= 1 accepted and >= 1 refused write and an activation after them. Distinct = distinct decoded choice sequence.",
